@@ -18,10 +18,26 @@ def main():
     tier = a.tier if a.tier in ("quick", "thorough") else "quick"
     seed = int(os.environ.get("VERIF_SEED", "0") or 0)
     mod = importlib.import_module("props." + a.pid.lower())
+    import vlib
     if a.replay:
         data = json.load(open(a.replay))
+        if isinstance(data.get("data"), dict) and "crash_item" in data["data"]:
+            item = data["data"]["crash_item"]
+            item = tuple(item) if isinstance(item, list) else item
+            try:
+                print(mod._worker([item]))
+            except Exception as e:      # noqa: BLE001
+                print("the worker raises %r on %r" % (e, item))
+                sys.exit(1)
+            sys.exit(0)
         sys.exit(mod.replay(data))
-    sys.exit(mod.run(tier, seed))
+    try:
+        rc = mod.run(tier, seed)
+    except vlib.WorkerCrash as e:
+        c = vlib.Check(a.pid.upper(), tier, seed, "proof")
+        c.fail("case %r: the code under test raised an exception the check does not expect there: %s" % (e.item, e.what), {"crash_item": e.item})
+        rc = c.finish()
+    sys.exit(rc)
 
 
 if __name__ == "__main__":
